@@ -76,7 +76,8 @@ def resolve_path(xml_text, path):
 
 
 # ---------------------------------------------------------------- layout noise
-NOISE_SEPS = [' ', '  ', '\n', '\t', ' /* c */ ', '\n// note\n', ' \\\n', '\n\n', ' /* multi\nline */ ']
+NOISE_SEPS = [' ', '  ', '\n', '\t', ' /* c */ ', '\n// note\n', ' \\\n', '\n\n', ' /* multi\nline */ ',
+              ' /**/ ', ' /***/ ', ' /* x **/ ', ' /** doc */ ', ' /* a * b / c */ ', ' /****/ ', ' /*/ x */ ', ' /* ** */ ', '\n//* not a block comment\n', ' /* // */ ']
 
 
 def add_noise(text, choose, crlf=False, lead=''):
